@@ -90,9 +90,19 @@ impl Serialize for ScopedId {
     }
 }
 
+/// Serialized with `Serializer::serialize_bytes` (what `serde_bytes` wrappers do).
+#[derive(Debug, Clone, PartialEq)]
+pub struct Blob(pub Vec<u8>);
+impl Serialize for Blob {
+    fn serialize<S: serde::Serializer>(&self, s: S) -> Result<S::Ok, S::Error> {
+        s.serialize_bytes(&self.0)
+    }
+}
+
 #[derive(Debug, Clone, PartialEq, Serialize)]
 pub struct Shapes {
     pub pad: String,
+    pub blob: Blob,
     pub id: ScopedId,
     pub addr: Vec<std::net::IpAddr>,
     pub f: f64,
@@ -127,6 +137,7 @@ pub fn shapes(pad: String, flags: u8) -> Shapes {
         _ => ShapeVar::Empty {},
     };
     Shapes {
+        blob: Blob((0..[0usize, 5, 33, 200][(flags as usize / 5) % 4]).map(|i| (i as u8).wrapping_mul(flags | 1)).collect()),
         // the first piece is longer than a fresh write buffer in one case of four
         id: ScopedId(if flags & 3 == 3 { "s".repeat(300) } else { format!("scope\"{}", flags) }, flags as u32),
         addr: if flags & 16 != 0 { vec![std::net::IpAddr::from([127, 0, 0, flags]), std::net::IpAddr::from([0u16, 0, 0, 0, 0, 0xffff, 0x7f00, flags as u16])] } else { vec![] },
